@@ -3,12 +3,13 @@ package main
 func init() {
 	register("C01", &propDef{
 		Level:   "other",
-		Explain: "Structural necessary conditions of 'Satisfies computes the Boolean truth of the expression', decided on the resolved program: X1 every kind of node contributes on every path of every dispatcher of the expansion (abstract interpretation per published node shape, productive-use marks joined over paths), X2 no positional selection or re-slicing of alternative lists, X3 ownership of every append to a node slice (fresh / accumulator / in place / transfer), X5 expansion neither constructs nor mutates nodes (write-once fields), X4 the quantifier structure ∃ alternative ∀ term ∃ allowed entry of the verdict, P1 precedence layering of the parser. Not decided: that appendTerms/mergeTerms produce exactly the cross product, and the matcher itself (C02).",
+		Explain: "Structural necessary conditions of 'Satisfies computes the Boolean truth of the expression', decided on the resolved program: X1 every kind of node contributes on every path of every dispatcher of the expansion (abstract interpretation per published node shape, productive-use marks joined over paths), X2 no positional selection or re-slicing of alternative lists, X3 ownership of every append to a node slice (fresh / accumulator / in place / transfer), X5 expansion neither constructs nor mutates nodes (write-once fields), X4 the quantifier structure ∃ alternative ∀ term ∃ allowed entry of the verdict, P1 precedence layering of the parser, S1/S3 the allowed nodes the search ranges over are exactly the nodes of the entries (built independently, only permuted, compacted only on equal canonical text). Not decided: that appendTerms/mergeTerms produce exactly the cross product, and the matcher itself (C02).",
 		Run: func(p *Prog, r *Report) {
 			eng := sharedEngine(p)
 			rulesExpansion(p, r, eng)
 			ruleX4(p, r, "X4")
 			ruleP1(p, r, eng)
+			rulesAllowedSet(p, r)
 		},
 		Trusted: []string{"go/ssa lowering", "the abstract interpreter's shape tables are derived from the node construction sites of the current tree"},
 	})
